@@ -1,6 +1,7 @@
 #!/usr/bin/env python3
 """tools/seedtest.py <patch.diff> <Cnn> [<Cnn>...]: apply a seeded change to /repo, run the checks, always revert."""
 import subprocess, sys, os
+os.environ['VV_EVIDENCE_DIR'] = '/tmp/vv_seed_evidence'; os.environ['VV_OUT_DIR'] = '/tmp/vv_seed_out'
 patch = sys.argv[1]; pids = sys.argv[2:]
 assert subprocess.run(['git', '-C', '/repo', 'status', '--porcelain', '--untracked-files=no'], capture_output=True, text=True).stdout.strip() == '', '/repo not clean'
 subprocess.run(['git', '-C', '/repo', 'apply', patch], check=True)
